@@ -801,7 +801,7 @@ def r_leaf_skip_and_filter(ctx):
     for f in ws:
         fa = ctx.fa(f)
         fn = f["path"]
-        fr = V("param:filter_range")
+        fr = role_param(fa, f, "range")
         n_ins = 0
         skip_seen = False
         for p in fa.paths:
@@ -817,7 +817,7 @@ def r_leaf_skip_and_filter(ctx):
                                 ok = True
                     obs.append(Ob("R-FILTER-GUARD", fn, "insert only when filter_range.contains(&tile_id) for the inserted id", ok, "inserted key %s" % tstr(key)[:80], e.loc()))
                 if e.kind == "call" and e.d["fn"] == fn:
-                    ok = fr in [unmut(a) for a in e.d["args"]]
+                    ok = fr in [unmut(a) for a in e.d["args"]] or (fr[0] == "f" and fr[1] in [unmut(a) for a in e.d["args"]])      # (or the struct that carries it)
                     obs.append(Ob("R-FILTER-GUARD", fn, "recursive call forwards the same filter", ok, "args: %s" % ", ".join(tstr(unmut(a))[:30] for a in e.d["args"]), e.loc()))
             # R-LEAF-SKIP: an iteration that handles a leaf entry but ends without recursing has skipped that leaf; the only admissible reason is
             # `entry.tile_id > inclusive end` (strict; unbounded end ⇒ u64::MAX ⇒ never), in whatever form the test is written
@@ -882,7 +882,7 @@ def _early_exits(ctx, rule, filtered):
     for f in ws:
         fa = ctx.fa(f)
         fn = f["path"]
-        fr = V("param:filter_range")
+        fr = role_param(fa, f, "range")
         n_break = 0
         for p in fa.paths:
             for e in p.events:
@@ -1216,7 +1216,7 @@ def r_findz(ctx):
     for f in fz:
         fa = ctx.fa(f)
         fn = f["path"]
-        tid = V("param:tile_id")
+        tid = role_param(fa, f, "u64")
         guarded_assign = {}
         unguarded = []
         ranges = set()
